@@ -37,8 +37,8 @@ Theorem C05_v0_balance_partial : forall inV outV inG outG inF outF fv,
 Proof. exact v0_final_vbf_balances. Qed.
 Print Assumptions C05_v0_balance_partial.
 
-Theorem C05_v0_blinded_exactly_requested : forall ins outs sel keys sok rng r j,
-  b0_blind ins outs sel keys sok rng = BOk r -> (j < length outs)%nat ->
+Theorem C05_v0_blinded_exactly_requested : forall ins outs sel keys tokkey sok rng r j,
+  b0_blind ins outs sel keys tokkey sok rng = BOk r -> (j < length outs)%nat ->
   marked_at (br0_outs r) j = existsb (fun i => has_script outs i && (N.to_nat i =? j)%nat) sel.
 Proof. exact v0_blinded_exactly_requested. Qed.
 Print Assumptions C05_v0_blinded_exactly_requested.
